@@ -451,15 +451,37 @@ func runC04(c *Ctx) {
 		}
 		return m, n
 	}
-	checkCascade := func(rule, construct string, f *ssa.Function, start ssa.Instruction, extraCut map[core.Edge]bool) {
-		pos := p.FuncPos(f)
-		if start != nil {
-			pos = p.Pos(start.Pos())
+	// cascadeBad: "" when, from start (or the entry), every successful local-peer path looks the
+	// linked sessions up and an invalidator call is fed by the lookup. A callee of the package that
+	// satisfies this from its own entry (a helper such as deleteCheckSessionsTxn extracted from the
+	// two cascading sites) counts as lookup + invalidation at its call site.
+	var cascadeBad func(f *ssa.Function, start ssa.Instruction, extraCut map[core.Edge]bool, depth int) string
+	helperMemo := map[*ssa.Function]bool{}
+	isCascadeHelper := func(in ssa.Instruction, depth int) bool {
+		ci, ok := in.(ssa.CallInstruction)
+		if !ok || depth <= 0 {
+			return false
 		}
+		if _, isDefer := in.(*ssa.Defer); isDefer {
+			return false
+		}
+		g := ci.Common().StaticCallee()
+		if g == nil || g.Pkg == nil || len(g.Blocks) == 0 || !core.IsConsul(g.Pkg.Pkg.Path()) || invalidators[g] {
+			return false
+		}
+		if v, ok := helperMemo[g]; ok {
+			return v
+		}
+		helperMemo[g] = false // recursion guard
+		v := cascadeBad(g, nil, nil, depth-1) == ""
+		helperMemo[g] = v
+		return v
+	}
+	cascadeBad = func(f *ssa.Function, start ssa.Instruction, extraCut map[core.Edge]bool, depth int) string {
 		peer := peerNonEmptyEdges(f)
 		mf := &core.MustFlow{F: f, Start: start,
 			Gen: func(in ssa.Instruction) []string {
-				if isSessionLookup(in) {
+				if isSessionLookup(in) || isCascadeHelper(in, depth) {
 					return []string{"lookup"}
 				}
 				return nil
@@ -491,6 +513,9 @@ func runC04(c *Ctx) {
 		fed := false
 		for _, b := range f.Blocks {
 			for _, in := range b.Instrs {
+				if isCascadeHelper(in, depth) {
+					fed = true
+				}
 				if !isInvalidatorCall(in) {
 					continue
 				}
@@ -506,7 +531,14 @@ func runC04(c *Ctx) {
 		if bad == "" && !fed {
 			bad = "no call to the session invalidator is fed by the linked-session lookup"
 		}
-		if bad != "" {
+		return bad
+	}
+	checkCascade := func(rule, construct string, f *ssa.Function, start ssa.Instruction, extraCut map[core.Edge]bool) {
+		pos := p.FuncPos(f)
+		if start != nil {
+			pos = p.Pos(start.Pos())
+		}
+		if bad := cascadeBad(f, start, extraCut, 2); bad != "" {
 			r.Violate(rule, construct, pos, bad)
 		} else {
 			r.Hold(rule, construct, pos, "linked sessions are looked up on every successful local path and handed to the invalidator")
